@@ -12,6 +12,14 @@ TRUST = ('Trusted base: rustc nightly THIR/MIR for this source (same cfgs as the
          'the evidence file.')
 
 CHECKS = {
+    'C02': {
+        'technique': 'who-may-write census on the user registry (typed receiver), check-and-insert under one write-guard region (lexical guard regions + query events), typestate entailment authenticated => registered, key-provenance of every User mutation',
+        'level': ('Decides that the registry is written only by add_user/remove_user/process_nick, that each insert is dominated by '
+                  'a "nick free" check made under the same write guard, that every handler mutates only users[own nick] (frozen '
+                  'foreign-target table for INVITE/KILL/DIE), and reports as known findings the three places where a connection '
+                  'acts on a nick it never registered (433 path leaves authenticated set; teardown; dns arm in the dns_lookup build).'),
+        'note': TRUST + ' Thorough tier repeats the analysis in the tls_rustls, tls_openssl and dns_lookup build configurations.',
+    },
     'C12': {
         'technique': 'two-world emission equivalence: reply sites with path conditions; reachability (satisfiability) of each site under the hidden-object world vs the absent-object world',
         'level': ('Decides for every LIST/NAMES/WHO/WHOIS query form that the reply kinds reachable for a secret channel (requester '
